@@ -360,6 +360,49 @@ func (propC16) Run(scI interface{}) *Outcome {
 			return fail("engine loaded from compiled bytes holds a different LastModified", fmt.Sprintf("%d vs %d", lmB, lmA))
 		}
 	}
+	// second generation: the main template is edited and recompiled (often within the same simulated
+	// second) and carried to an engine with and one without history; both must render the NEW source
+	if a.Class == "ok" && !faulted {
+		src2 := srcs[mainName] + "<!-- v2 -->{{ 40 + 2 }}"
+		if err := A.RegisterString(mainName, src2); err == nil {
+			c2, err := A.CompileTemplate(mainName)
+			if err != nil {
+				return fail("compile of a re-registered template failed", err.Error())
+			}
+			d2, err := twig.SerializeCompiledTemplate(c2)
+			if err != nil {
+				return fail("serialise failed", err.Error())
+			}
+			hubB2 := &spyHub{per: []*Spies{newSpies()}}
+			B2 := twig.New()
+			installSpies(B2, hubB2)
+			for _, s := range sers {
+				if s.name != "\x00raw" && s.name != mainName {
+					B2.LoadFromCompiledData(s.data)
+				}
+			}
+			for _, eng := range []*twig.Engine{B, B2} {
+				if err := eng.LoadFromCompiledData(d2); err != nil {
+					return fail("LoadFromCompiledData failed on serialised bytes", fmt.Sprintf("second generation of %s: %v", mainName, err))
+				}
+			}
+			spA2, spB1, spB2 := newSpies(), newSpies(), newSpies()
+			hubA.per[0], hubB.per[0], hubB2.per[0] = spA2, spB1, spB2
+			a2 := observe(spA2, func() (string, error) { return A.Render(mainName, BuildCtx(sc.Prog.Ctx, 0)) })
+			for which, pair := range map[string]struct {
+				e  *twig.Engine
+				sp *Spies
+			}{"engine that had loaded the first version": {B, spB1}, "fresh engine": {B2, spB2}} {
+				b2 := observe(pair.sp, func() (string, error) { return pair.e.Render(mainName, BuildCtx(sc.Prog.Ctx, 0)) })
+				o.Probes["renders_compared"]++
+				if a2.Key() != b2.Key() {
+					return fail(fmt.Sprintf("recompiled template renders differently from its new source: source=%s compiled=%s", a2.Class, b2.Class),
+						fmt.Sprintf("%s, main %q edited to %q\n source engine:   %s\n compiled engine: %s", which, mainName, tail(src2, 200), a2, b2))
+				}
+			}
+			o.Probes["second_generation"]++
+		}
+	}
 	o.Sample = map[string]interface{}{"via": sc.Via, "templates": names, "raws": len(sc.Raws), "clock_start_s": sc.ClockStart, "faults": sc.Faults, "main": tail(srcs[mainName], 300), "result": a.Class}
 	return o
 }
